@@ -33,6 +33,9 @@ Verdict(r) ==
                 THEN {"C18-decoded-events"} ELSE {})
      \cup (IF r.end # "EAGAIN: Try again" THEN {"C18-reader-end"} ELSE {})
 
+\* auxiliary (no listed property): the tablet switch reader on the same byte stream
+AuxTablet(r) == r.tablet # TabletFilter(AllRecs(r)) \/ r.tablet_end # "EAGAIN: Try again"
+ASSUME \A i \in 1..Len(Res): AuxTablet(Res[i]) => PrintT(<<"AUX", Res[i].id, "tablet switch reader", Res[i].tablet, TabletFilter(AllRecs(Res[i]))>>)
 NonTrivial(r) == AllRecs(r) # << <<0, 0, 0>> >>
 Judge(i) == LET r == Res[i]  v == Verdict(r) IN
             v # {} => PrintT(<<IF v \subseteq KnownIds THEN "KNOWN" ELSE "BAD", r.id, v>>)
